@@ -32,6 +32,16 @@ const (
 
 // readIgnoreFile reads a specific git ignore file.
 func readIgnoreFile(fs billy.Filesystem, path []string, ignoreFile string) (ps []Pattern, err error) {
+	if ignoreFile == gitignoreFile {
+		// A .gitignore in the worktree is repository content. Like git
+		// (which opens it with O_NOFOLLOW), never follow it when it is a
+		// symbolic link: the link target is chosen by whoever wrote the
+		// tree and may lie outside the worktree or inside .git.
+		if fi, lerr := fs.Lstat(fs.Join(append(path, ignoreFile)...)); lerr == nil && fi.Mode()&os.ModeSymlink != 0 {
+			return nil, nil
+		}
+	}
+
 	ignoreFile, _ = pathutil.ReplaceTildeWithHome(ignoreFile)
 
 	f, err := fs.Open(fs.Join(append(path, ignoreFile)...))
